@@ -286,4 +286,6 @@ def run(ck, F):
         ck.run_rule(r)
     import c19
     ck.run_rule(c19.r19_5)
-    ck.run_rule(c19.r19_5b)     # a held-back connection failure must surface instead of a clean end-of-stream (all four receive paths)
+    ck.run_rule(c19.r19_5b)
+    import c06
+    ck.run_rule(c06.r06_1b)    # end-of-stream only when the sender really finished     # a held-back connection failure must surface instead of a clean end-of-stream (all four receive paths)
